@@ -531,6 +531,8 @@ impl<D: Distance> Writer<D> {
         let nb_missing_trees = target_n_trees.saturating_sub(roots.len() as u64);
         for _ in 0..nb_missing_trees {
             let new_id = concurrent_node_ids.next()?;
+            #[cfg(arroy_verif)]
+            crate::verif::log_id(0, new_id);
             roots.push(new_id);
             large_descendants.insert(new_id);
             self.database.put(
@@ -604,6 +606,10 @@ impl<D: Distance> Writer<D> {
         });
 
         while let Some(descendant_id) = large_descendants.select(0) {
+            #[cfg(arroy_verif)]
+            if crate::verif::tick(0) {
+                return Err(Error::BuildCancelled);
+            }
             large_descendants.remove_smallest(1);
             options.cancelled()?;
             let node = self.database.get(wtxn, &Key::tree(self.index, descendant_id))?.unwrap();
@@ -675,6 +681,10 @@ impl<D: Distance> Writer<D> {
         }
 
         while !to_insert.is_empty() {
+            #[cfg(arroy_verif)]
+            if crate::verif::tick(1) {
+                return Err(Error::BuildCancelled);
+            }
             options.cancelled()?;
 
             // If we have only one roots it means we're splitting a large descendants.
@@ -979,6 +989,8 @@ impl<D: Distance> Writer<D> {
         repeatn(rng.next_u64(), roots.len())
             .zip(roots)
             .map(|(seed, root)| {
+                #[cfg(arroy_verif)]
+                crate::verif::chaos(1);
                 opt.cancelled()?;
                 tracing::debug!("started updating tree {root:X}...");
                 let mut rng = R::seed_from_u64(seed.wrapping_add(*root as u64));
@@ -1025,6 +1037,8 @@ impl<D: Distance> Writer<D> {
 
                 if new_items.len() > 1 {
                     let node_id = frozen_reader.concurrent_node_ids.next()?;
+                    #[cfg(arroy_verif)]
+                    crate::verif::log_id(1, node_id);
                     let node_id = NodeId::tree(node_id);
                     if !self.fit_in_descendant(opt, new_items.len()) {
                         large_descendants.insert(node_id.item);
@@ -1138,6 +1152,8 @@ impl<D: Distance> Writer<D> {
 
         if self.fit_in_descendant(opt, item_indices.len()) {
             let item_id = reader.concurrent_node_ids.next()?;
+            #[cfg(arroy_verif)]
+            crate::verif::log_id(2, item_id);
             let item = Node::Descendants(Descendants { descendants: Cow::Borrowed(item_indices) });
             tmp_nodes.put(item_id, &item)?;
             return Ok((NodeId::tree(item_id), 1));
@@ -1193,6 +1209,8 @@ impl<D: Distance> Writer<D> {
         let normal = SplitPlaneNormal { normal, left, right };
 
         let new_node_id = reader.concurrent_node_ids.next()?;
+        #[cfg(arroy_verif)]
+        crate::verif::log_id(3, new_node_id);
         tmp_nodes.put(new_node_id, &Node::SplitPlaneNormal(normal))?;
 
         Ok((NodeId::tree(new_node_id), l + r + 1))
